@@ -1267,8 +1267,7 @@ def plan_C18(tier, rng):
     def builder(calls, cfgs=RF, tag=None):
         nonlocal i, ep
         i += 1
-        if i % 200 == 0:
-            ep = cs.new_ep()
+        ep = cs.new_ep()          # no relation between builder events: one per episode keeps the trace state small
         cs.add({"ep": ep, "op": "builder", "calls": [list(c) for c in calls], "api": "core", "wo": False}, cfgs, tag)
 
     # exhaustive per group: every subset of the 18 syntax flags (sampled in quick), of the 13 separator flags, every byte per char field
@@ -1320,7 +1319,7 @@ def plan_C18(tier, rng):
     ep = cs.new_ep()
     for f in vlib.load_formats():
         for c in ("rf", "pow2", "format", "default"):
-            cs.add({"ep": ep, "op": "fmtinfo", "fmt": f["id"], "api": "core", "wo": False}, [c], "catalogue-format")
+            cs.add({"ep": cs.new_ep(), "op": "fmtinfo", "fmt": f["id"], "api": "core", "wo": False}, [c], "catalogue-format")
     # parsing with invalid formats / invalid punctuation never yields a value
     F = fmt_tags()
     ep = cs.new_ep()
@@ -1328,6 +1327,7 @@ def plan_C18(tier, rng):
     for f in F.values():
         if f["name"].startswith("syn2_") or f["name"].startswith("syn3_") or f["name"] in ("sep_all_c",):
             for s_ in inputs:
+                ep = cs.new_ep()
                 for ty in ("f64", "i32"):
                     for partial in (False, True):
                         cs.parse(ep, ty, f["id"], s_, RF, wo=True, opts=pf() if ty == "f64" else dict(PI_DEFAULT), partial=partial, tag="parse-invalid-format")
@@ -1335,6 +1335,7 @@ def plan_C18(tier, rng):
     for (e_, p_) in bad_punct:
         for fid in (0, fmt_id("sep_all_i"), radix_fmt(16), fmt_id("syn_prefix_x")):
             for s_ in inputs[:6]:
+                ep = cs.new_ep()
                 for partial in (False, True):
                     cs.parse(ep, "f64", fid, s_, RF, wo=True, opts=pf(exp=e_, point=p_), partial=partial, tag="parse-invalid-punctuation")
     # option builders
@@ -1348,7 +1349,7 @@ def plan_C18(tier, rng):
                 if quick and i % 3:
                     continue
                 o = {"lossy": i % 2 == 0, "exp": 101, "point": 46, "nan": ostr(nan), "inf": ostr(inf), "infinity": ostr(infinity)}
-                cs.add({"ep": ep, "op": "options", "kind": "parse_float", "opts": o, "api": "core", "wo": True}, RF, "parse-float-options")
+                cs.add({"ep": cs.new_ep(), "op": "options", "kind": "parse_float", "opts": o, "api": "core", "wo": True}, RF, "parse-float-options")
     for (e_, p_) in bad_punct + [(101, 46), (94, 44), (9, 46), (127, 46), (1, 2)]:
         o = {"lossy": False, "exp": e_, "point": p_, "nan": ostr("NaN"), "inf": ostr("inf"), "infinity": ostr("infinity")}
         cs.add({"ep": ep, "op": "options", "kind": "parse_float", "opts": o, "api": "core", "wo": True}, RF, "parse-float-options")
